@@ -339,6 +339,9 @@ struct Upstream {
     other_queries: Arc<AtomicUsize>,
 }
 
+/// every DNSKEY query is answered with an error (scripted upstream failure)
+static FAIL_DNSKEY: std::sync::atomic::AtomicBool = std::sync::atomic::AtomicBool::new(false);
+
 impl DnsHandle for Upstream {
     type Response = Pin<Box<dyn Stream<Item = Result<DnsResponse, NetError>> + Send>>;
     type Runtime = MockRuntime;
@@ -360,11 +363,21 @@ impl DnsHandle for Upstream {
                 answers = a.clone();
             }
         }
+        if q.as_ref().map(|q| q.query_type == RecordType::DNSKEY).unwrap_or(false) && FAIL_DNSKEY.load(AtOrd::SeqCst) {
+            return Box::pin(stream::once(async move { Err(NetError::from("scripted upstream failure")) }));
+        }
         let mut msg = msg.into_response();
         for a in answers {
             msg.add_answer(a);
         }
-        let r = DnsResponse::from_message(msg).map_err(NetError::from);
+        // what a transport would deliver: the response goes through the wire encoding (name compression, RDATA
+        // decoders of RRSIG / DNSKEY / …); a message that cannot be encoded is handed over as it is
+        let r = match msg.to_vec().ok().and_then(|bytes| DnsResponse::from_buffer(bytes).ok()) {
+            // only if the decoded message carries the same records (some generated RDATA, e.g. a TXT without
+            // strings, has no decodable wire form: C01/C02 territory)
+            Some(r) if r.answers == msg.answers => Ok(r),
+            _ => DnsResponse::from_message(msg).map_err(NetError::from),
+        };
         Box::pin(stream::once(async move { r }))
     }
 }
@@ -523,6 +536,98 @@ fn exec_inner(t: &[&str]) -> Option<Out> {
             }
             Some(o)
         }
+        ["sadd", a, b2] => {
+            let (x, y): (u32, u32) = (a.parse().ok()?, b2.parse().ok()?);
+            let got = (SerialNumber::new(x) + SerialNumber::from(y)).get();
+            let mut o = simple(format!("sadd {x} {y}"), got.to_string())?;
+            if got != x.wrapping_add(y) {
+                o.fails.push(("SerialNumber addition is not addition modulo 2^32 (RFC 1982 §3.1)".into(), String::new()));
+            }
+            Some(o)
+        }
+        ["sx", kind, key, sg, recs @ ..] => {
+            // implementation only: edge paths of DnssecDnsHandle::send around a correctly signed answer —
+            //   update   a non-Query opcode is passed through unvalidated: nothing may come back marked Secure
+            //   noquery  a request without a question is refused
+            //   depth0   max_request_depth = 0: the nested DNSKEY lookup is refused ("exceeded max validation
+            //            depth") → the answer is Bogus, never Secure, and nothing is cached
+            let k = K::parse(key)?;
+            let s = S::parse(sg)?;
+            let recs_n: Vec<Rec> = recs.iter().map(|r| Rec::parse(r)).collect::<Option<Vec<_>>>()?;
+            let records: Vec<Record> = recs_n.iter().map(|r| r.to_record()).collect::<Option<Vec<_>>>()?;
+            let first = recs_n.first()?;
+            let name_h = first.name.to_name()?;
+            let ty = first.rtype;
+            let mut ta = TrustAnchors::empty();
+            ta.insert(&PublicKeyBuf::new(k.pk.clone(), Algorithm::from_u8(k.alg)));
+            let up = Upstream { script: Arc::new(Mutex::new(Script::default())), dnskey_queries: Arc::new(AtomicUsize::new(0)), other_queries: Arc::new(AtomicUsize::new(0)) };
+            {
+                let mut sc = up.script.lock().unwrap();
+                let mut ans = records.clone();
+                ans.push(s.to_record()?);
+                sc.answers.insert((name_tok(&name_h.to_lowercase()), ty), ans);
+                sc.answers.insert((name_tok(&s.signer.to_name()?.to_lowercase()), 48), vec![k.to_record()?]);
+            }
+            let handle = DnssecDnsHandle::with_trust_anchor(up.clone(), Arc::new(ta));
+            CLOCK.store(s.inc.wrapping_add(1) as u64, AtOrd::SeqCst);
+            let rt = tokio::runtime::Builder::new_current_thread().enable_all().build().ok()?;
+            let mut opts = DnsRequestOptions::default();
+            let query = Query::new(name_h.clone(), RecordType::from(ty));
+            let mut req = DnsRequest::from_query(query.clone(), opts);
+            match *kind {
+                "update" => req.op_code = hickory_proto::op::OpCode::Update,
+                "noquery" => req.queries.clear(),
+                "depth0" => {
+                    opts.max_request_depth = 0;
+                    req = DnsRequest::from_query(query.clone(), opts);
+                }
+                "plain" => {}
+                _ => return None,
+            }
+            let mut fails = vec![];
+            let mut outcome = Vec::new();
+            for round in 0..2 {
+                let h2 = handle.clone();
+                let rq = req.clone();
+                let res = rt.block_on(async move { h2.send(rq).first_answer().await });
+                let secure = match &res {
+                    Ok(r) => r.answers.iter().any(|a| a.proof == Proof::Secure),
+                    Err(NetError::Dns(DnsError::Nsec { response, .. })) => response.answers.iter().any(|a| a.proof == Proof::Secure),
+                    Err(_) => false,
+                };
+                outcome.push(match (&res, secure) {
+                    (Err(_), _) => "err",
+                    (Ok(_), true) => "secure",
+                    (Ok(_), false) => "not-secure",
+                });
+                match *kind {
+                    "plain" => {}
+                    "noquery" => {
+                        if res.is_ok() {
+                            fails.push(("a request without a question was answered".into(), String::new()));
+                        }
+                    }
+                    _ => {
+                        if secure {
+                            fails.push((format!("send edge path `{kind}` (round {round}) returned records marked Secure"), String::new()));
+                        }
+                    }
+                }
+            }
+            // after the refused nested lookups nothing must have been cached: the same handle validates normally
+            if *kind == "depth0" {
+                let h2 = handle.clone();
+                let rq = DnsRequest::from_query(query.clone(), DnsRequestOptions::default());
+                let res = rt.block_on(async move { h2.send(rq).first_answer().await });
+                let secure = res.as_ref().map(|r| r.answers.iter().any(|a| a.proof == Proof::Secure)).unwrap_or(false);
+                outcome.push(if secure { "then-secure" } else { "then-not-secure" });
+                if !secure {
+                    fails.push(("a Net error of the DNSKEY lookup was cached: the correctly signed answer is not Secure afterwards on the same handle".into(), String::new()));
+                }
+            }
+            let line = format!("sx {kind} {} {}{}", k.tok(), s.tok(), recs_n.iter().map(|r| format!(" {}", r.tok().unwrap_or_default())).collect::<String>());
+            Some(Out { line, out: "~".into(), fails, stats: vec![format!("sx.{kind}.{}", outcome.join("+"))], nontrivial: true })
+        }
         ["tag", h] => {
             let b = unhex(h)?;
             let got = DNSKEY::calculate_key_tag_internal(&b);
@@ -659,7 +764,9 @@ fn exec_inner(t: &[&str]) -> Option<Out> {
             let clock: u64 = now.parse().ok()?;
             let now: u32 = clock as u32;
             let inst: u64 = inst.parse().ok()?;
-            let ks: Vec<K> = if *keys == "-" {
+            // KEYS = `!`: every DNSKEY lookup of this request fails upstream
+            let net_error = *keys == "!";
+            let ks: Vec<K> = if *keys == "-" || net_error {
                 vec![]
             } else {
                 keys.split('|')
@@ -684,7 +791,7 @@ fn exec_inner(t: &[&str]) -> Option<Out> {
             } else {
                 sigs.iter().map(|s| ks.iter().map(|k| oracle_tok(k, s, &name_n, &records)).collect::<Vec<_>>().join("|")).collect::<Vec<_>>().join(",")
             };
-            let keys_tok = if ks.is_empty() { "-".to_string() } else { ks.iter().map(|k| format!("{};S", k.tok())).collect::<Vec<_>>().join("|") };
+            let keys_tok = if net_error { "!".to_string() } else if ks.is_empty() { "-".to_string() } else { ks.iter().map(|k| format!("{};S", k.tok())).collect::<Vec<_>>().join("|") };
             let line = format!(
                 "h {clock} {inst} {ck} {keys_tok} {} {} {ty} {orcs}{}",
                 sigs.iter().map(|s| s.tok()).collect::<Vec<_>>().join("|"),
@@ -723,9 +830,11 @@ fn exec_inner(t: &[&str]) -> Option<Out> {
                     }
                 }
                 h.up.dnskey_queries.store(0, AtOrd::SeqCst);
+                FAIL_DNSKEY.store(net_error, AtOrd::SeqCst);
                 let req = DnsRequest::from_query(query.clone(), DnsRequestOptions::default());
                 let handle = h.handle.clone();
                 let res = h.rt.block_on(async move { handle.send(req).first_answer().await });
+                FAIL_DNSKEY.store(false, AtOrd::SeqCst);
                 let fresh = h.up.dnskey_queries.load(AtOrd::SeqCst) > 0;
                 let msg: Message = match res {
                     Ok(r) => r.into_message(),
@@ -767,7 +876,7 @@ fn exec_inner(t: &[&str]) -> Option<Out> {
                 let out = format!(
                     "{} {} {} sig {sig_out} dev={}{}",
                     if nolookup { "nolookup" } else if fresh { "fresh" } else { "cached" },
-                    proof_tok(p0),
+                    if proofs.is_empty() { "-" } else { proof_tok(p0) },
                     ttls.iter().map(|t| t.to_string()).collect::<Vec<_>>().join(" "),
                     b(dev),
                     b(dev2)
@@ -1308,7 +1417,7 @@ fn mutate_rd(rd: &mut RD, r: &mut Rng) -> &'static str {
 
 /// applies one mutation; returns its label
 fn mutate(b: &mut Base, kproof: &mut Proof, r: &mut Rng) -> String {
-    let m = r.below(46);
+    let m = r.below(47);
     let lab: String = match m {
         0..=3 => "none".into(),
         4..=9 => {
@@ -1472,7 +1581,12 @@ fn mutate(b: &mut Base, kproof: &mut Proof, r: &mut Rng) -> String {
             b.now = *r.pick(&clocks);
             "window.empty (expiration before inception)".into()
         }
-        _ => inject_other_class(&mut b.recs, r),
+        43..=45 => inject_other_class(&mut b.recs, r),
+        _ => {
+            // the RRSIG alone, without a single record of the RRset
+            b.recs.clear();
+            "rrset.empty".into()
+        }
     };
     lab
 }
@@ -1913,6 +2027,70 @@ fn gen_history(r: &mut Rng, kind: u64) -> Option<Vec<String>> {
                 }
             }
         }
+        17 => {
+            // more RRSIGs than MAX_RRSIGS_PER_RRSET: non-candidates (foreign signer) in front, the verifying RRSIG at
+            // index 7 … 11 — beyond index 8 it is never looked at
+            resign(&mut b);
+            let total = r.range(9, 12) as usize;
+            let at = r.range(7, total as u64 - 1) as usize;
+            let mut sigs: Vec<S> = vec![];
+            for i in 0..total {
+                if i == at {
+                    sigs.push(b.s.clone());
+                } else {
+                    let mut j = b.s.clone();
+                    j.signer = c05::nm(*r.pick(&["unrelated.test.", "x.y.z."]));
+                    j.tag = j.tag.wrapping_add(i as u16 + 1);
+                    j.sig = r.bytes(16);
+                    sigs.push(j);
+                }
+            }
+            lines.push(h_line_multi(t0 as u64, 0, &keys, &sigs, &b.name, b.ty, &b.recs)?);
+            lines.push(h_line_multi(t0 as u64, 0, &keys, &sigs, &b.name, b.ty, &b.recs)?);
+        }
+        18 => {
+            // DNSKEY owners: the answer to the signer's DNSKEY query carries the verifying key under another owner
+            // (must not count), alone or next to the properly owned key, in both orders
+            resign(&mut b);
+            let mut foreign = b.k.clone();
+            foreign.owner = c05::nm(*r.pick(&["other.test.", "com.", "."]));
+            if same_name_ci(&foreign.owner, &b.k.owner) {
+                foreign.owner = c05::nm("other.test.");
+            }
+            lines.push(h_line(t0, 0, &[foreign.clone()], &b.s, &b.name, b.ty, &b.recs)?);
+            let pair = if r.chance(1, 2) { vec![foreign.clone(), b.k.clone()] } else { vec![b.k.clone(), foreign.clone()] };
+            // another TTL: a new look-up is forced by changing the records' TTL? no — the cache key ignores TTLs; a
+            // different RDATA order makes a different key
+            let mut recs2 = b.recs.clone();
+            recs2.reverse();
+            lines.push(h_line(t0, 0, &pair, &b.s, &b.name, b.ty, if b.recs.len() > 1 { &recs2 } else { &b.recs })?);
+        }
+        19 => {
+            // the DNSKEY lookup fails (upstream error): Bogus for this response, NOT cached — the next, successful
+            // validation is fresh and Secure; and a cached Secure verdict is served without any lookup
+            resign(&mut b);
+            let fail = |b: &Base| h_line_multi(t0 as u64, 0, &[], std::slice::from_ref(&b.s), &b.name, b.ty, &b.recs).map(|l| {
+                let mut t: Vec<String> = l.split(' ').map(String::from).collect();
+                t[4] = "!".into();
+                t.join(" ")
+            });
+            if r.chance(1, 2) {
+                lines.push(h_line(t0, 0, &keys, &b.s, &b.name, b.ty, &b.recs)?);
+                lines.push(fail(&b)?);
+            } else {
+                lines.push(fail(&b)?);
+                lines.push(fail(&b)?);
+                lines.push(h_line(t0, 0, &keys, &b.s, &b.name, b.ty, &b.recs)?);
+                lines.push(fail(&b)?);
+            }
+        }
+        20 => {
+            // an RRSIG without a single record of the type it covers: Bogus, nothing to cache
+            resign(&mut b);
+            lines.push(h_line(t0, 0, &keys, &b.s, &b.name, b.ty, &[])?);
+            lines.push(h_line(t0, 0, &keys, &b.s, &b.name, b.ty, &[])?);
+            lines.push(h_line(t0, 0, &keys, &b.s, &b.name, b.ty, &b.recs)?);
+        }
         _ => {
             // wrong key first (Bogus is cached), then the right key; and the reverse
             resign(&mut b);
@@ -1931,7 +2109,7 @@ fn block(cfg: &str, lines: Vec<String>) -> Vec<String> {
     let mut tas: Vec<String> = vec![];
     for l in &lines {
         let t: Vec<&str> = l.split_whitespace().collect();
-        if t.len() > 4 && t[4] != "-" {
+        if t.len() > 4 && t[4] != "-" && t[4] != "!" {
             for k in t[4].split('|') {
                 let f: Vec<&str> = k.split(';').collect();
                 let e = format!("{}:{}", f[2], f[3]);
@@ -2013,8 +2191,39 @@ pub fn run(o: &Opts, rec: &mut Recorder) {
         let d = *r.pick(&[0u32, 1, 0x7FFF_FFFF, 0x8000_0000, 0x8000_0001, 0xFFFF_FFFF, x]);
         exec(&format!("serial {a} {}", a.wrapping_add(d)), rec);
     }
+    for _ in 0..o.n(60, 5_000) {
+        let x = r.next() as u32;
+        let y = *r.pick(&[0u32, 1, 0x7FFF_FFFF, 0x8000_0000, 0xFFFF_FFFF, r.0 as u32]);
+        exec(&format!("sadd {x} {y}"), rec);
+    }
     for k in all_keys() {
         exec(&format!("tag {}", hex(&k.rdata())), rec);
+    }
+    // edge paths of DnssecDnsHandle::send around a correctly signed answer (implementation only)
+    {
+        let mut sr = Rng::new(6064);
+        for _ in 0..o.n(6, 60) {
+            let mut b = gen_base_with(&mut sr, true);
+            while b.ty == 48 || b.recs.is_empty() {
+                b = gen_base_with(&mut sr, true);
+            }
+            b.s.inc = 1_700_000_000;
+            b.s.exp = 1_700_086_400;
+            b.k.owner = b.s.signer.clone();
+            if let Some(bytes) = b.s.ref_case(&b.name, 1, &b.recs).ref_signed_data() {
+                b.s.sig = sign_with(b.ki, &bytes);
+                for kind in ["plain", "update", "noquery", "depth0"] {
+                    let mut l = format!("sx {kind} {} {}", b.k.tok(), b.s.tok());
+                    for q in &b.recs {
+                        if let Some(t) = q.tok() {
+                            l.push(' ');
+                            l.push_str(&t);
+                        }
+                    }
+                    exec(&l, rec);
+                }
+            }
+        }
     }
     for _ in 0..o.n(100, 5_000) {
         let n = r.below(70) as usize;
@@ -2155,11 +2364,11 @@ pub fn run(o: &Opts, rec: &mut Recorder) {
             exec(&l, rec);
         }
     }
-    for i in 0..o.n(1020, 34_000) {
+    for i in 0..o.n(1320, 44_000) {
         let mut rr = r.fork();
-        match catch(move || gen_history(&mut rr, i as u64 % 17)) {
+        match catch(move || gen_history(&mut rr, i as u64 % 22)) {
             Ok(Some(h)) => {
-                rec.stat(&format!("history.kind.{}", i % 17));
+                rec.stat(&format!("history.kind.{}", i % 22));
                 for l in h {
                     exec(&l, rec);
                 }
